@@ -58,10 +58,12 @@ FRAG_GROUPS = {
     "rewire": (["_get_curie_preferred_or_synonym", "_get_uri_preferred_or_synonym", "rewire", "remap_uri_prefixes"], []),
     "ctor": (["_get_prefix_map", "_get_reverse_prefix_map", "_get_prefix_synmap"], []),
     "triples": (["_expand_pair_all", "triples"], ["base", "curie", "all"]),
+    "init": (["__init__"], ["ctor"]),
+    "w3c": (["is_w3c_prefix", "_is_w3c_luid", "is_w3c_curie"], []),
 }
 FRAG_OF = {"C01": ["base", "uri"], "C02": ["base", "curie", "all"], "C03": ["base", "uri", "curie"], "C06": ["base", "curie", "std"],
            "C07": ["base", "uri", "curie", "mixed"], "C08": ["base", "uri", "curie", "all", "std", "mixed"],
-           "C05": ["index", "merge"], "C14": ["shacl", "epm", "jsonld"], "C12": ["rewire"], "C04": ["ctor"], "C18": ["triples"]}
+           "C05": ["index", "merge"], "C14": ["shacl", "epm", "jsonld"], "C12": ["rewire"], "C04": ["ctor", "init"], "C18": ["triples"], "C20": ["w3c"]}
 
 BATCH = int(os.environ.get("VERIF_BATCH", "6000"))
 
